@@ -21,6 +21,10 @@ def _merge(res, parts):
         for k, v in r.classes.items():
             res.classes[k] = res.classes.get(k, 0) + v
         res.distinct |= r.distinct
+        res.distinct_count += r.distinct_count
+        res.specfail_total += r.specfail_total
+        res.modeldiff_total += r.modeldiff_total
+        res.bad_total += r.bad_total
         res.driver_rc = res.driver_rc or r.driver_rc
     for r in parts:
         for s in r.samples:
